@@ -29,6 +29,7 @@ Section Contract.
   Variable l_new : bytes -> option inst * ures.
   Variable l_reset : inst -> bytes -> inst * ures.
   Variable l_read : inst -> option N -> inst * rres.
+  Variable l_readn : inst -> N -> inst * pres.
   Variable l_close : inst -> inst * ures.
 
   Definition positions (r : inst * ures) (s : bytes) : Prop :=
@@ -64,8 +65,30 @@ Section Contract.
     lc_closed_close : forall i, view i = Closed ->
       snd (l_close i) <> UCrash /\ view (fst (l_close i)) = Closed;
     lc_nosrc_read : forall i n, view i = NoSrc ->
-      snd (l_read i n) = RCrash \/ view (fst (l_read i n)) = NoSrc
+      snd (l_read i n) = RCrash \/ view (fst (l_read i n)) = NoSrc;
+    (* ONE Read(p), len(p) = n, as io.Reader documents it: it delivers SOME prefix z of what is still to
+       come (how long is the library's choice; the empty prefix and n = 0 included), at most n bytes,
+       no error; io.EOF may come with the last bytes or with a later, empty read, never earlier *)
+    lc_readn : forall i y n, view i = At y false ->
+      exists z y' st,
+        snd (l_readn i n) = PRes z st /\ y = z ++ y' /\ N.of_nat (length z) <= n /\
+        view (fst (l_readn i n)) = At y' false /\ st <> SErr /\ (st = SEof -> y' = []);
+    lc_readn_err : forall i y n, view i = At y true ->
+      snd (l_readn i n) <> PCrash /\ erring (view (fst (l_readn i n)));
+    lc_failed_readn : forall i n, view i = Failed ->
+      snd (l_readn i n) <> PCrash /\ view (fst (l_readn i n)) = Failed;
+    lc_closed_readn : forall i n, view i = Closed ->
+      snd (l_readn i n) <> PCrash /\ view (fst (l_readn i n)) = Closed;
+    lc_nosrc_readn : forall i n, view i = NoSrc ->
+      snd (l_readn i n) = PCrash \/ view (fst (l_readn i n)) = NoSrc
   }.
+
+  (* liveness of ONE Read, not part of lib_contract (io.Reader only discourages (0, nil)): a read
+     into a non-empty buffer delivers at least one byte while bytes are to come, and reports io.EOF
+     once none are *)
+  Definition lib_progress : Prop :=
+    forall i y n z st, view i = At y false -> 0 < n -> snd (l_readn i n) = PRes z st ->
+      (y <> [] -> z <> []) /\ (y = [] -> st = SEof).
 
   (* compress/gzip only: a Reader can be Reset after Close *)
   Definition reset_after_close : Prop :=
@@ -135,7 +158,7 @@ Definition starts_with_reset (h : list dop) : Prop := exists s h', h = DReset s 
      Decompress        reads (io.ReadAll, or a limited read followed by a drain)
      putDecompressor   Close                 an error drops the instance
                        Reset(http.NoBody)    result ignored; back into the pool *)
-Definition is_read (op : dop) : Prop := exists n, op = DRead n.
+Definition is_read (op : dop) : Prop := (exists n, op = DRead n) \/ (exists n, op = DReadN n).
 Inductive pool_history : list dop -> Prop :=
 | ph_idle : pool_history []
 | ph_dropped_at_get s : pool_history [DReset s]
@@ -169,3 +192,36 @@ Definition iana : list (Z * bytes) :=
 (* "name n denotes algorithm a" is right when it is what the registry says (names are
    compared case-insensitively where a place does so, never otherwise) *)
 Definition denotes_ok (p : bytes * Z) : Prop := In (snd p, fst p) iana.
+
+(* ====================================================================== *)
+(* 4. Reading in pieces; independence of the library                      *)
+(* ====================================================================== *)
+(* the bytes a list of read outcomes delivered, in order *)
+Fixpoint delivered (outs : list dout) : bytes :=
+  match outs with
+  | OR (ROk z) :: t => z ++ delivered t
+  | OP (PRes z _) :: t => z ++ delivered t
+  | _ :: t => delivered t
+  | [] => []
+  end.
+(* a read that reported no error (io.EOF is not an error) and did not panic *)
+Definition read_fine (o : dout) : Prop :=
+  match o with
+  | OR (ROk _) => True
+  | OP (PRes _ SNil) | OP (PRes _ SEof) => True
+  | _ => False
+  end.
+Definition eof_seen (outs : list dout) : Prop := exists z, In (OP (PRes z SEof)) outs.
+
+(* Two libraries treat an object that never had a source alike: the contract leaves open whether
+   reading / closing such an object panics (snappy and brotli dereference the nil source, zstd
+   reports an error), and a panic is observable. *)
+Definition nosrc_alike {inst1 inst2}
+           (view1 : inst1 -> lview) (l_read1 : inst1 -> option N -> inst1 * rres)
+           (l_readn1 : inst1 -> N -> inst1 * pres) (l_close1 : inst1 -> inst1 * ures)
+           (view2 : inst2 -> lview) (l_read2 : inst2 -> option N -> inst2 * rres)
+           (l_readn2 : inst2 -> N -> inst2 * pres) (l_close2 : inst2 -> inst2 * ures) : Prop :=
+  forall i1 i2, view1 i1 = NoSrc -> view2 i2 = NoSrc ->
+    (forall n, snd (l_read1 i1 n) = RCrash <-> snd (l_read2 i2 n) = RCrash) /\
+    (forall n, snd (l_readn1 i1 n) = PCrash <-> snd (l_readn2 i2 n) = PCrash) /\
+    (snd (l_close1 i1) = UCrash <-> snd (l_close2 i2) = UCrash).
